@@ -110,7 +110,7 @@ p["units"] += [
     K("h_mem::mem_other_sizes", "quick", "Bloom words, CMS counters, HLL registers match the configuration"),
     K("h_mem::mem_cuckoo_clear", "quick", "cuckoo: clear() (also twice) keeps the block count and table length of a fresh table, widths 2,3,16,31,33,64", mem_class_gb=6, timeout_s=2400),
     K("h_mem::mem_qf_clear", "quick", "QF: clear() keeps the block count and table length, remainder widths 2,3,16,33,62", mem_class_gb=6, timeout_s=2400),
-    K("h_cuckoo::ck_clear_clone", "quick", "cuckoo: clear() / clone keep the block count of a fresh table (no growth on the clear path)", features=["kicks2"], mem_class_gb=10, timeout_s=2400, mem_gb=30),
+    K("h_cuckoo::ck_clear_clone", "quick", "cuckoo: clear() / clone keep the block count of a fresh table (no growth on the clear path)", features=["kicks2"], mem_class_gb=10, timeout_s=1200, mem_gb=24),
     K("h_qf::qf_clear_clone_q2r2", "quick", "QF: clear() keeps the block count of a fresh table", mem_class_gb=8, timeout_s=2400),
     K("h_cms::cms_add_w3d2_u8", "quick", "CMS: add_n keeps len and capacity"), K("h_cms::cms_merge_w3d2_u8", "quick", "CMS: merge keeps len, capacity bounded"),
     K("h_hll::hll_add_hashed_b4", "quick", "HLL: add keeps the register count"), K("h_hll::hll_merge_max_b4", "quick", "HLL: merge keeps the register count"),
@@ -380,7 +380,7 @@ p["units"] += [
     K("h_cms::cms_clear_clone_w3d2_u8", "quick", "CMS clear/clone/is_empty"), K("h_cms::cms_clear_clone_w2d3_u8", "quick", "CMS clear/clone"),
     K("h_hll::hll_clear_clone_b4", "quick", "HLL clear/clone/is_empty"),
     K("h_qf::qf_clear_clone_q2r2", "quick", "QF clear/clone", mem_class_gb=8, timeout_s=2400), K("h_qf::qf_fresh_q2r2", "quick", "QF new is empty"),
-    K("h_cuckoo::ck_clear_clone", "quick", "cuckoo clear/clone", features=["kicks2"], mem_class_gb=10, timeout_s=2400),
+    K("h_cuckoo::ck_clear_clone", "quick", "cuckoo clear/clone", features=["kicks2"], mem_class_gb=10, timeout_s=1200, mem_gb=24),
     K("h_reservoir::reservoir_clear_clone_k1", "quick", "reservoir clone equal and independent"), K("h_reservoir::reservoir_clear_clone_k3", "quick", "reservoir clone equal and independent"),
     K("h_reservoir::reservoir_clear_fresh_k1", "quick", "reservoir clear == fresh (incl. skip counter); next add fills slot 0"), K("h_reservoir::reservoir_clear_fresh_k3", "quick", "reservoir clear == fresh"),
     K("h_tdigest::td_clear_clone", "quick", "TDigest clear/clone raw parts", mem_class_gb=8, timeout_s=2400),
